@@ -88,13 +88,13 @@ for _cls in ("TraceableCountVectorizer", "TraceableTfidfVectorizer"):
     def _mk(cls):
         class Delegates(Contract):
             """%s._word_ngrams is NGramsMixin._word_ngrams on the same tokens and stop words (MRO: the scikit-learn base would win otherwise)"""
-            variants = [(2, None), (3, 1)]
+            variants = [(L, S, ng) for ng in ((1, 1), (1, 2), (2, 3)) for L, S in ((2, None), (3, 1))]
 
             def setup(self, E, v):
-                L, S = v
+                L, S, ng = v
                 tokens = [E.str("tok%d" % i) for i in range(L)]
                 stop = None if S is None else [E.str("stop%d" % i) for i in range(S)]
-                s = E.new_obj(F + "::" + cls, dict(ngram_range=(1, 2)))
+                s = E.new_obj(F + "::" + cls, dict(ngram_range=ng))
                 return dict(self=s, tokens=tokens, stop_words=stop)
 
             def ensures(self, E, a, res, old):
